@@ -176,7 +176,11 @@ func FieldOwnerName(t types.Type, idx int) string {
 	for typeArgsRe.MatchString(name) {
 		name = typeArgsRe.ReplaceAllString(name, "")
 	}
-	return name + "." + canonFieldName(name, st.Field(idx).Name())
+	full := name + "." + canonFieldName(name, st.Field(idx).Name())
+	if m := movedField(name + "." + st.Field(idx).Name()); m != "" {
+		return m // a field regrouped into this (new) nested struct
+	}
+	return full
 }
 
 // FieldVar returns the *types.Var of the idx-th field of (pointer to) t.
